@@ -12,7 +12,14 @@ one(){
   d=${1%/}; id=$(basename $d); w=$WT/$id
   checks=$(python3 -c "import json;print(' '.join(json.load(open('$d/meta.json'))['caught_by']))")
   git -C /repo worktree add -q --detach $w HEAD 2>/dev/null || { echo "$id worktree failed"; return; }
-  if ! (cd $w && (git apply $d/patch.diff 2>/dev/null || git apply --3way $d/patch.diff >/dev/null 2>&1)); then echo "$id PATCH-DOES-NOT-APPLY"; git -C /repo worktree remove --force $w; return; fi
+  ok=0
+  for pf in $d/patch.diff $(ls $d/patch-on-*.diff 2>/dev/null); do   # re-created patches for changes whose code was touched by a later fix
+    if (cd $w && git checkout -q -- . && (git apply $pf 2>/dev/null || git apply --3way $pf >/dev/null 2>&1)); then ok=1; break; fi
+  done
+  if [ $ok = 0 ]; then
+    if [ -f $d/SUPERSEDED ]; then echo "$id superseded: $(head -1 $d/SUPERSEDED)"; else echo "$id PATCH-DOES-NOT-APPLY"; fi
+    git -C /repo worktree remove --force $w; return
+  fi
   (cd $w && go build ./... >/dev/null 2>&1) || { echo "$id DOES-NOT-BUILD"; git -C /repo worktree remove --force $w; return; }
   "$VERIF_ROOT/bin/mutant_wt.sh" $w $checks 2>&1 | grep -E '^C[0-9]+ ' | while read line; do echo "$id $line" | cut -c1-150; done
   git -C /repo worktree remove --force $w
